@@ -100,8 +100,8 @@ func verifScope(before *verifview.View, e *verifgen.Entry) (skip bool) {
 		e.Role = "nosession"
 		return false
 	}
-	believedLink := e.Role == "link" || e.Role == "probe-link"
-	probe := e.Role == "probe"
+	believedLink := e.Gen == "link"
+	probe := e.Gen == "probe"
 	switch {
 	case a.Server:
 		e.Role = "link"
